@@ -37,4 +37,56 @@ def load():
         "trusts TLC, the line driver and projection (harness/cmd/vh/smtp.go), the spelling of abstract commands (checks/smtp.py); ordinary addresses only",
         "TLA+ contract + TLC-generated dialogues replayed on the real server + TLC trace validation",
         "DESIGN.md 5/C01", "smtp")
+    reg("C03", smtp.c03, "model_checking",
+        "TLC checks the Smtp contract model (sequencing invariants and action properties), then walks every edge of its state graph over the full command alphabet "
+        "and simulates long dialogues; all are played against the real server (child processes, crash attributed to the dialogue) and every reply + the whole store after "
+        "every line is validated by TLC against the contract; TLC-generated valid dialogues are additionally cut at byte offsets and the store after the cut is validated "
+        "(acknowledged messages present, at most the completely transmitted one in addition, nothing partial).",
+        "trusts TLC, the line driver, the spelling of abstract commands; reply classes not wording; cut offsets: quick sampled, thorough every byte",
+        "TLA+ contract + TLC transition tour/simulation replayed on the real server + TLC trace validation + fault enumeration of disconnects",
+        "DESIGN.md 5/C03", "smtp")
+    reg("C06", smtp.c06, "model_checking",
+        "The Smtp contract's size decisions (MAIL SIZE parameter vs limit, DATA block size vs limit) are walked edge by edge by TLC and replayed with concrete sizes on "
+        "either side of several limits; replies and the whole store are validated by TLC against the contract, including a follow-up transaction on the same connection.",
+        "sizes within +-300 bytes of the limit excluded; limits 1000/5000/100000 (+10240000 thorough)",
+        "TLA+ contract + TLC transition tour replayed on the real server + TLC trace validation",
+        "DESIGN.md 5/C06", "smtp")
+    from checks import naming
+    reg("C04", naming.c04, "exploration",
+        "TLC checks that the abstract naming function of spec/Naming.tla satisfies NonEmpty, FixedPoint, CaseInsensitive, PlusInsensitive and ReceiveNameEqualsLookupName for every "
+        "abstract address (route x local part of <= 4 token classes x domain class) in the three naming modes, and enumerates every abstract address with its variants; each is spelled "
+        "with seed-chosen characters and given to the real receive path (NewRecipient), the real lookup path (MailboxForAddress) and, for a sample, delivered through a real SMTP session "
+        "and fetched through the real REST / web UI router; TLC evaluates the same relations on the recorded observation tables (NamingTrace.tla).  Exploration: the specification drives "
+        "the enumeration and judges relations between recorded outputs; it does not model the characters.",
+        "trusts TLC, the driver (harness/cmd/vh/naming.go), the spelling of token classes (checks/naming.py); one spelling per abstract address and seed; addresses refused at RCPT are outside the property",
+        "TLA+ relations over an observation table + TLC-enumerated abstract addresses and variants replayed on the real naming code + TLC evaluation of the relations on recorded outputs",
+        "DESIGN.md 5/C04", "naming")
+    from checks import pop3
+    reg("C13", pop3.c13, "model_checking",
+        "TLC checks the Pop3 contract model (spec/Pop3.tla, GenPop3.tla: snapshot fixed at login, STAT/LIST/UIDL computed from snapshot minus marks, RSET unmarks all, "
+        "QUIT removes exactly the marked messages, any other ending and every other command removes nothing, environment changes invisible inside a session) exhaustively; "
+        "TLC then generates a transition tour over every (state, command x argument class) edge, all mark/unmark/environment/ending sequences to a bounded depth and long simulated "
+        "dialogues; each is played against the real pop3.Server with real memory and file stores, and TLC validates every reply and the whole store after every step against the contract.",
+        "trusts TLC, the line driver and reply parser (harness/cmd/vh/pop3.go), the spelling of abstract commands (checks/pop3.py); ordinary mailbox names; message content not compared (C02)",
+        "TLA+ contract + TLC-generated dialogues with environment steps and disconnects replayed on the real server + TLC trace validation",
+        "DESIGN.md 5/C13", "pop3")
+    from checks import rest
+    reg("C14", rest.c14, "model_checking",
+        "TLC checks the Rest contract model (spec/Rest.tla, GenRest.tla: ReadsChangeNothing, Missing404, RefusalNoEffect, OthersUntouched, ClientEffectMatchesName, NeverDropped on top of "
+        "the Mailstore contract) exhaustively, generates a transition tour over every (store state, request) edge and long simulated histories; each is replayed per mailbox-name class, "
+        "back-end and base path against the real router + StoreManager + store over loopback HTTP, raw and through pkg/rest/client, and TLC validates status class, decoded response "
+        "fields, every client exchange and the whole store after every step against the contract (RestTrace.tla).",
+        "trusts TLC, the HTTP driver and projections (harness/cmd/vh/rest.go), the spelling of names/bodies/sources (checks/rest.py); 2 mailboxes, <= 3 deliveries in the tour; web UI text/html rendering not compared (C18)",
+        "TLA+ contract + TLC transition tour and simulated histories replayed on the real router and Go client + TLC trace validation",
+        "DESIGN.md 5/C14", "rest")
+    from checks import sanitize
+    reg("C18", sanitize.c18, "exploration",
+        "TLC checks the abstract style filter x browser-like declaration reader product (spec/Sanitize.tla, GenSanitize.tla: CssSound for token-class sequences of every length) and "
+        "enumerates completely the bounded languages of CSS token-class sequences, abstract HTML documents (node classes x nesting) and text-class sequences; each case is spelled in "
+        "several seed-chosen byte spellings, run through the real sanitize.HTML / web.TextToHTML / web UI message endpoint, the real output is re-parsed (tree-building HTML parser, "
+        "independent CSS declaration-list parser) into a projection record, and TLC evaluates NoActiveElements, NoHandlerAttrs, NoScriptUrls, StylePropsAllowed, TextFullyEscaped and "
+        "NeverFails on every observation (SanitizeTrace.tla).  Exploration: TLA+ cannot model tokenizers, the specification drives generation and judges recorded outputs.",
+        "trusts TLC, the projection (x/net/html tree builder, declaration splitter in harness/cmd/vh/sanitize.go), the spelling pools of checks/sanitize.py; byte patterns the class alphabets do not distinguish are out of reach",
+        "TLC-enumerated abstract alphabets concretised in several spellings + invariants evaluated by TLC on projections of the real outputs",
+        "DESIGN.md 5/C18", "sanitize")
     return REG
